@@ -32,7 +32,7 @@ func vxCovers(m, t Move) bool {
 // (a)+(b): the candidate set. The observer answers "illegal" to every candidate, so HasLegalMove
 // runs through its complete candidate sequence (which does not depend on the answers).
 func VN_C08_has_legal_move_candidates() int { return 64 }
-func VQ_C08_has_legal_move_candidates() int { return 4 }
+func VQ_C08_has_legal_move_candidates() int { return 2 }
 func VH_C08_has_legal_move_candidates(k int) {
 	vxStub(vxGetAttacksBb, VxGeoAttacks)
 	p, s := position.VxSymPosL("", false)
